@@ -6,7 +6,7 @@
    The converse direction of Proofs/Sem_derive_proofs.v (C01). *)
 From TsRs Require Import Base.Str Base.Outcome Gen.Tables Model.Case Model.TsAst Model.Rust Model.Docs Model.Gen
   Spec.TsFree Spec.TsSem Spec.Serde Spec.SerdeDe Spec.RtyInd Proofs.Gen_base_proofs Proofs.Sem_base_proofs Proofs.Sem_lib_proofs
-  Proofs.Sem_derive_proofs Model.Path Model.Merge Model.GenExport.
+  Proofs.Sem_alt_proofs Proofs.Sem_derive_proofs Model.Path Model.Merge Model.GenExport.
 From Coq Require Import List Lia Bool ZArith.
 Import ListNotations.
 Local Open Scope nat_scope.
@@ -402,16 +402,26 @@ Definition dfield (n : nat) (opt : optional) (fl : field) : Prop :=
   match f_optional fl with NotOptional => True | Optional _ => is_option (f_ty fl) = true end /\
   match opt with NotOptional => True | Optional _ => not_param (f_ty fl) end.
 
+(* a flattened field: a struct with named fields (no tag, no flattened field of its own) in a definition without parameters *)
+Definition dflat (n : nat) (f : field) : Prop :=
+  f_flatten f = true /\ f_type f = None /\ f_serde_ty f = f_ty f /\ pmono R n (f_ty f) = true /\ n = 0 /\
+  f_optional f = NotOptional /\ small_arr (f_ty f) = true /\ flat_struct R (f_ty f).
+Definition dnfield (n : nat) (opt : optional) (f : field) : Prop := dfield n opt f \/ dflat n f.
+
 Definition dshape (n : nat) (opt : optional) (s : shape) : Prop :=
   match s with
   | SUnit => True
   | STuple [f] => dfield n opt f /\ f_skip f = false        (* a skipped newtype field is a known class *)
   | STuple fs => Forall (dfield n opt) fs
-  | SNamed fs => Forall (dfield n opt) fs
+  | SNamed fs => Forall (dnfield n opt) fs
   end.
 
+(* the keys of a named shape: own keys and the keys of the flattened structs; a tag key is none of them *)
+Definition all_keys (ra : option rule) (fs : list field) : list str :=
+  map (Gen.field_key ra) (filter (fun fl => negb (is_flat fl)) (live fs)) ++
+  concat (map (fun f => flat_keys R (f_ty f)) (filter is_flat (live fs))).
 Definition tag_free (t : str) (ra : option rule) (s : shape) : Prop :=
-  match s with SNamed fs => NoDup (t :: map (Gen.field_key ra) (live fs)) | _ => True end.
+  match s with SNamed fs => ~ In t (all_keys ra fs) | _ => True end.
 
 Definition dvariant (n : nat) (tg : tagging) (raf : option rule) (v : variant) : Prop :=
   v_type v = None /\ v_as v = None /\ v_untagged v = false /\ dshape n NotOptional (v_shape v) /\
@@ -436,7 +446,7 @@ Definition def_ok (n : nat) (d : typedef) : Prop :=
       dshape n (c_optional_fields a) s /\
       match c_tag a with
       | None => True
-      | Some t => exists fs, s = SNamed fs /\ NoDup (t :: map (Gen.field_key (c_rename_all a)) (live fs))
+      | Some t => exists fs, s = SNamed fs /\ ~ In t (all_keys (c_rename_all a) fs)
       end
   | DEnum a tg raf vs => Forall (fun v => v_skip v = false -> dvariant n tg raf v) vs /\ names_distinct a tg vs
   end.
@@ -465,12 +475,32 @@ Proof.
   - destruct opt; [exact I|]. destruct (f_ty fl); try exact I. discriminate.
 Qed.
 
+Definition dflatb (n : nat) (f : field) : bool :=
+  f_flatten f && is_none (f_type f) && rty_eqb (f_serde_ty f) (f_ty f) && pmono R n (f_ty f) && Nat.eqb n 0 &&
+  match f_optional f with NotOptional => true | _ => false end && small_arr (f_ty f) && flat_structb R (f_ty f).
+
+Lemma dflatb_ok n f : dflatb n f = true -> dflat n f.
+Proof.
+  unfold dflatb, dflat. intros H.
+  repeat match type of H with (_ && _) = true => let H' := fresh "H" in apply andb_true_iff in H as [H H'] end.
+  repeat split; try assumption.
+  - apply is_none_eq; assumption.
+  - apply rty_eqb_eq; assumption.
+  - apply Nat.eqb_eq; assumption.
+  - destruct (f_optional f); [reflexivity | discriminate].
+  - apply flat_structb_ok; assumption.
+Qed.
+
+Definition dnfieldb (n : nat) (opt : optional) (f : field) : bool := dfieldb n opt f || dflatb n f.
+Lemma dnfieldb_ok n opt f : dnfieldb n opt f = true -> dnfield n opt f.
+Proof. unfold dnfieldb, dnfield. intros H. apply orb_true_iff in H as [H|H]; [left; apply dfieldb_ok | right; apply dflatb_ok]; exact H. Qed.
+
 Definition dshapeb (n : nat) (opt : optional) (s : shape) : bool :=
   match s with
   | SUnit => true
   | STuple [f] => dfieldb n opt f && negb (f_skip f)
   | STuple fs => forallb (dfieldb n opt) fs
-  | SNamed fs => forallb (dfieldb n opt) fs
+  | SNamed fs => forallb (dnfieldb n opt) fs
   end.
 
 Lemma dshapeb_ok n opt s : dshapeb n opt s = true -> dshape n opt s.
@@ -481,11 +511,17 @@ Proof.
     + constructor.
     + apply andb_true_iff in H as [H1 H2]. split; [apply dfieldb_ok; exact H1 | apply negb_true_iff; exact H2].
     + eapply forallb_Forall'; [apply dfieldb_ok | exact H].
-  - eapply forallb_Forall'; [apply dfieldb_ok | exact H].
+  - eapply forallb_Forall'; [apply dnfieldb_ok | exact H].
 Qed.
 
 Definition tag_freeb (t : str) (ra : option rule) (s : shape) : bool :=
-  match s with SNamed fs => nodupb (t :: map (Gen.field_key ra) (live fs)) | _ => true end.
+  match s with SNamed fs => negb (existsb (str_eqb t) (all_keys ra fs)) | _ => true end.
+
+Lemma tag_freeb_ok t ra s : tag_freeb t ra s = true -> tag_free t ra s.
+Proof.
+  destruct s as [| |fs]; cbn [tag_freeb tag_free]; intros H; try exact I. intros Hin. apply negb_true_iff in H.
+  rewrite (existsb_in (str_eqb t) t _ Hin (str_eqb_refl' t)) in H. discriminate.
+Qed.
 
 Definition dvariantb (n : nat) (tg : tagging) (raf : option rule) (v : variant) : bool :=
   is_none (v_type v) && is_none (v_as v) && negb (v_untagged v) && dshapeb n NotOptional (v_shape v) &&
@@ -508,7 +544,7 @@ Proof.
   - destruct tg; try exact I. destruct (v_shape v) as [|[|f [|f2 fs]]|fs]; try exact I; try discriminate.
     + match goal with Hx : (negb (f_inline f) && struct_contentb R _ (f_ty f))%bool = true |- _ => apply andb_true_iff in Hx as [Hx1 Hx2] end.
       split; [apply negb_true_iff; exact Hx1 | apply struct_contentb_ok; exact Hx2].
-    + cbn [tag_freeb tag_free] in *. apply nodupb_NoDup. assumption.
+    + apply tag_freeb_ok. assumption.
 Qed.
 
 Definition def_okb (d : typedef) : bool :=
@@ -520,7 +556,7 @@ Definition def_okb (d : typedef) : bool :=
       dshapeb n (c_optional_fields a) s &&
       match c_tag a with
       | None => true
-      | Some t => match s with SNamed fs => nodupb (t :: map (Gen.field_key (c_rename_all a)) (live fs)) | _ => false end
+      | Some t => match s with SNamed fs => tag_freeb t (c_rename_all a) (SNamed fs) | _ => false end
       end
   | DEnum a tg raf vs =>
       forallb (fun v => v_skip v || dvariantb n tg raf v) vs &&
@@ -539,7 +575,7 @@ Proof.
   destruct d as [a s|a tg raf vs].
   - apply andb_true_iff in Hd as [Hsh Htag]. split; [apply dshapeb_ok; exact Hsh|].
     destruct (c_tag a) as [t|]; [|exact I].
-    destruct s as [|fs|fs]; try discriminate. exists fs. split; [reflexivity | apply nodupb_NoDup; exact Htag].
+    destruct s as [|fs|fs]; try discriminate. exists fs. split; [reflexivity | exact (tag_freeb_ok t _ (SNamed fs) Htag)].
   - apply andb_true_iff in Hd as [Hvs Hnm]. split.
     + eapply forallb_Forall'; [|exact Hvs]. intros v Hv Hskip. cbn beta in Hv. rewrite Hskip in Hv. cbn [orb] in Hv. apply dvariantb_ok; exact Hv.
     + unfold names_distinct. destruct tg; try exact I; apply nodupb_NoDup; exact Hnm.
@@ -577,6 +613,22 @@ Hypothesis Hcontent : forall tg nm t a j f, struct_content R tg t -> pmono R n t
   name_of R (rsubst gargs t) = Ok a -> f <= F ->
   mem f (TInter [TObj OVariant [(quoted_head tg, TLit nm)]; ts a]) j = true -> wf_json j = true ->
   exists es, j = JObj es /\ assoc tg es = Some (JStr nm) /\ acc (dt (rsubst sargs t) (JObj (remove_key tg es))).
+
+(* ... and of a struct flattened into the definition: its flattened form denotes one exact alternative `ps`, membership in
+   it is membership in that alternative, and an object whose entries inhabit `ps` is read as the struct *)
+Definition conds (ps : list (phead * tsty)) (es : list (str * json)) (f : nat) : Prop :=
+  forall p t0, In (p, t0) ps -> match assoc (p_key p) es with Some v => mem f t0 v = true | None => p_optional p = true end.
+
+Hypothesis Hflatd : forall t x, flat_struct R t -> pmono R n t = true -> small_arr t = true -> n = 0 ->
+  flt (rsubst gargs t) = Ok x ->
+  exists ps, pkeys ps = flat_keys R t /\
+    (forall k alts, dnf E k (ts x) = Some alts -> alts = [(ps, [])]) /\
+    (forall j f, mem f (ts x) j = true -> exists es f', j = JObj es /\ f' < f /\ alt_member (mem f') (ps, []) es = true) /\
+    (forall es f, f <= F -> conds ps es f -> (forall k v, assoc k es = Some v -> wf_json v = true) ->
+       acc (dt (rsubst sargs t) (JObj es))).
+
+Notation dflat := (dflat R n).
+Notation dnfield := (dnfield R n).
 
 Lemma mem_union_null f a j : mem f (TUnion [a; prim "null"]) j = true -> j = JNull \/ exists f', f = S f' /\ mem f' a j = true.
 Proof.
@@ -687,7 +739,7 @@ Lemma named_gen ra opt tag fs r : Forall (dfield opt) fs -> (fs <> [] \/ tag <> 
   shape_gen is_alnum is_numeric R inl flt gargs ra opt tag (SNamed fs) = Ok r ->
   exists props, omap_list (prop_of is_alnum is_numeric R inl gargs ra opt) (live fs) = Ok props /\
     fst r = TMerged (TObj OStruct (match tag with Some (t, nm) => (quoted_head t, TLit nm) :: props | None => props end)) /\
-    exists y, snd r = Some y.
+    snd r = Some (fst r).
 Proof.
   intros Hpl Hne Hg. cbn [shape_gen] in Hg.
   assert (Hg' : bind (omap_list (prop_of is_alnum is_numeric R inl gargs ra opt) (filter (fun fl => negb (is_flat fl)) (live fs))) (fun props =>
@@ -707,7 +759,7 @@ Proof.
   rewrite (filter_none is_flat (live fs)) in Hg'
     by (intros x Hx; apply (is_flat_d opt); pose proof (live_d opt _ Hpl) as Hl; rewrite Forall_forall in Hl; auto).
   apply bind_ok in Hg' as (props & Hp & Hg). cbn [omap_list bind] in Hg. exists props. split; [exact Hp|].
-  destruct tag as [[t nm]|]; [inversion Hg; split; [reflexivity | eexists; reflexivity] | destruct props; inversion Hg; (split; [reflexivity | eexists; reflexivity])].
+  destruct tag as [[t nm]|]; [inversion Hg; split; reflexivity | destruct props; inversion Hg; (split; reflexivity)].
 Qed.
 
 Lemma props_keys ra opt : forall fs props,
@@ -716,6 +768,221 @@ Lemma props_keys ra opt : forall fs props,
 Proof.
   intros fs props Hp. apply omap_list_ok in Hp.
   induction Hp as [|fl p fs' ps Hfp _ IH]; [reflexivity|]. cbn [map]. f_equal; [|exact IH]. apply (prop_of_key ra opt fl p Hfp).
+Qed.
+
+(* ---- named fields, some of them flattened structs ------------------------------------------------ *)
+Lemma conds_of_alt ps es f : alt_member (mem f) (ps, []) es = true -> conds ps es f.
+Proof. intros H p t0 Hin. exact (alt_member_props _ _ _ _ H p t0 Hin). Qed.
+
+Lemma conds_app_l ps qs es f : conds (ps ++ qs) es f -> conds ps es f.
+Proof. intros H p t0 Hin. apply H. apply in_or_app. left. exact Hin. Qed.
+Lemma conds_app_r ps qs es f : conds (ps ++ qs) es f -> conds qs es f.
+Proof. intros H p t0 Hin. apply H. apply in_or_app. right. exact Hin. Qed.
+
+Lemma conds_transfer ps es es' f : conds ps es f -> (forall k, In k (pkeys ps) -> assoc k es' = assoc k es) -> conds ps es' f.
+Proof.
+  intros H Hsame p t0 Hin. rewrite Hsame; [apply H; exact Hin|]. unfold pkeys.
+  change (p_key p) with ((fun q : phead * tsty => p_key (fst q)) (p, t0)). apply in_map. exact Hin.
+Qed.
+
+Lemma is_flat_dflat fl : dflat fl -> is_flat fl = true.
+Proof. intros (Hf & Hty0 & _). unfold is_flat. rewrite Hf, Hty0. reflexivity. Qed.
+
+Lemma dnfield_noflat opt fl : dnfield opt fl -> f_flatten fl = false -> dfield opt fl.
+Proof. intros [H|H] Hf; [exact H|]. destruct H as (Hfl & _). congruence. Qed.
+
+Lemma field_ty_dflat opt fl : dflat fl -> field_ty gargs opt fl = rsubst gargs (f_ty fl).
+Proof.
+  intros (_ & _ & _ & _ & _ & Hfo & _ & Hfs). unfold field_ty, field_optional. rewrite Hfo.
+  destruct (f_ty fl); try contradiction. destruct opt as [|[|]]; reflexivity.
+Qed.
+
+(* the fields read from an object: the own ones as before, a flattened struct by whoever knows that it is read *)
+Lemma named_acc2 ra opt : forall fs props es f,
+  Forall (dnfield opt) fs ->
+  omap_list (prop_of is_alnum is_numeric R inl gargs ra opt) (filter (fun fl => negb (is_flat fl)) (live fs)) = Ok props ->
+  f <= F -> conds (map (fun p => (fst p, ts (snd p))) props) es f ->
+  (forall fl, In fl fs -> dflat fl -> f_skip fl = false -> acc (dt (rsubst sargs (f_ty fl)) (JObj es))) ->
+  (forall k v, assoc k es = Some v -> wf_json v = true) ->
+  acc (named_de dt sargs ra fs es).
+Proof.
+  intros fs props es f Hd Hp Hf Hprops Hflat Hwf. unfold named_de. apply dseq_acc.
+  revert props Hp Hprops Hflat. induction fs as [|fl fs IH]; intros props Hp Hprops Hflat; cbn [map]; [constructor|].
+  inversion Hd as [|? ? Hdf Hdfs]; subst.
+  unfold live in Hp. cbn [filter] in Hp. destruct (f_skip fl) eqn:Hskip; cbn [negb] in Hp.
+  - constructor; [apply acc_ok | eapply IH; [assumption | exact Hp | exact Hprops | intros fl0 Hin; apply Hflat; right; exact Hin]].
+  - cbn [filter] in Hp. destruct Hdf as [Hdf|Hdf].
+    + rewrite (is_flat_d opt fl Hdf) in Hp. cbn [negb filter] in Hp.
+      cbn [omap_list] in Hp. apply bind_ok in Hp as (p & Hpp & Hp). apply bind_ok in Hp as (ps & Hps & Hp). inversion Hp; subst; clear Hp.
+      constructor; [|eapply IH; [assumption | exact Hps | intros p0 t0 Hin; apply Hprops; right; exact Hin | intros fl0 Hin; apply Hflat; right; exact Hin]].
+      pose proof Hdf as (Hnoflat & _). rewrite Hnoflat.
+      change (Serde.field_key ra fl) with (Gen.field_key ra fl).
+      specialize (Hprops (fst p) (ts (snd p)) (or_introl eq_refl)). cbn [fst] in Hprops.
+      rewrite (prop_of_key ra opt fl p Hpp) in Hprops. destruct (assoc (Gen.field_key ra fl) es) as [x|] eqn:Ha.
+      * pose proof Hdf as (_ & _ & Hsty & _). rewrite Hsty.
+        eapply field_present; [exact Hdf | exact Hpp | exact Hf | exact Hprops | eapply Hwf; exact Ha].
+      * rewrite (field_absent opt fl ra p Hdf Hpp Hprops). apply acc_ok.
+    + rewrite (is_flat_dflat fl Hdf) in Hp. cbn [negb filter] in Hp.
+      constructor; [|eapply IH; [assumption | exact Hp | exact Hprops | intros fl0 Hin; apply Hflat; right; exact Hin]].
+      pose proof Hdf as (Hfl1 & _ & Hsty & _). rewrite Hfl1, Hsty. apply Hflat; [left; reflexivity | exact Hdf | exact Hskip].
+Qed.
+
+(* every operand denotes one alternative: so does the intersection *)
+Lemma inter_fold_singletons k : forall tys pss alts,
+  Forall2 (fun t ps => forall a, dnf E k t = Some a -> a = [(ps, [])]) tys pss ->
+  inter_fold E k tys = Some alts -> alts = [(concat pss, [])].
+Proof.
+  induction tys as [|t tys IH]; intros pss alts H Hf; inversion H as [|? ps ? pss' Ht Hrest]; subst.
+  - cbn in Hf. inversion Hf. reflexivity.
+  - cbn [inter_fold fold_right] in Hf. change (fold_right _ _ tys) with (inter_fold E k tys) in Hf.
+    destruct (dnf E k t) as [a|] eqn:Hd; [|discriminate]. destruct (inter_fold E k tys) as [b|] eqn:Hb; [|discriminate].
+    rewrite (Ht a eq_refl) in Hf. rewrite (IH pss' b Hrest eq_refl) in Hf. cbn [flat_map map app] in Hf. unfold alt_merge in Hf. cbn [fst snd app] in Hf.
+    inversion Hf. reflexivity.
+Qed.
+
+Definition okeys (ra : option rule) (fs : list field) : list str := map (Gen.field_key ra) (filter (fun fl => negb (is_flat fl)) (live fs)).
+Definition fkeys (fs : list field) : list str := concat (map (fun f => flat_keys R (f_ty f)) (filter is_flat (live fs))).
+
+Lemma props_keys2 ra opt : forall fs props,
+  omap_list (prop_of is_alnum is_numeric R inl gargs ra opt) (filter (fun fl => negb (is_flat fl)) (live fs)) = Ok props ->
+  map (fun p => p_key (fst p)) props = okeys ra fs.
+Proof.
+  intros fs props Hp. unfold okeys. apply omap_list_ok in Hp.
+  induction Hp as [|fl p fs' ps Hfp _ IH]; [reflexivity|]. cbn [map]. f_equal; [|exact IH]. apply (prop_of_key ra opt fl p Hfp).
+Qed.
+
+(* what is known of each flattened field, with its alternative *)
+Lemma flats_info opt : forall fs flats,
+  Forall (dnfield opt) fs ->
+  omap_list (fun fl => flt (field_ty gargs opt fl)) (filter is_flat (live fs)) = Ok flats ->
+  exists pss,
+    Forall2 (fun x ps => forall k a, dnf E k (ts x) = Some a -> a = [(ps, [])]) flats pss /\
+    map pkeys pss = map (fun f => flat_keys R (f_ty f)) (filter is_flat (live fs)) /\
+    (forall es f, f <= F -> conds (concat pss) es f -> (forall k v, assoc k es = Some v -> wf_json v = true) ->
+       forall fl, In fl fs -> dflat fl -> f_skip fl = false -> acc (dt (rsubst sargs (f_ty fl)) (JObj es))) /\
+    (forall x, flats = [x] -> exists ps, pss = [ps] /\
+       forall j f, mem f (ts x) j = true -> exists es f', j = JObj es /\ f' < f /\ alt_member (mem f') (ps, []) es = true).
+Proof.
+  induction fs as [|fl fs IH]; intros flats Hd Hfl.
+  - cbn in Hfl. inversion Hfl; subst. exists []. repeat split; try constructor. + intros es f _ _ _ fl0 []. + intros x Hx. discriminate.
+  - inversion Hd as [|? ? Hdf Hdfs]; subst. unfold live in *. cbn [filter] in Hfl |- *. destruct (f_skip fl) eqn:Hskip; cbn [negb] in Hfl |- *.
+    + destruct (IH flats Hdfs Hfl) as (pss & H1 & H2 & H3 & H4). exists pss. repeat split; try assumption.
+      intros es f Hf Hc Hwf fl0 [<-|Hin] Hdfl Hsk; [congruence | eapply H3; eassumption].
+    + cbn [filter] in Hfl |- *. destruct Hdf as [Hdf|Hdf].
+      * rewrite (is_flat_d opt fl Hdf) in Hfl |- *. cbn [filter] in Hfl |- *.
+        destruct (IH flats Hdfs Hfl) as (pss & H1 & H2 & H3 & H4). exists pss. repeat split; try assumption.
+        intros es f Hf Hc Hwf fl0 [<-|Hin] Hdfl Hsk; [destruct Hdf as (Hn & _); destruct Hdfl as (Hy & _); congruence | eapply H3; eassumption].
+      * rewrite (is_flat_dflat fl Hdf) in Hfl |- *. cbn [filter] in Hfl |- *.
+        cbn [omap_list] in Hfl. apply bind_ok in Hfl as (x & Hx & Hfl). apply bind_ok in Hfl as (xs & Hxs & Hfl). inversion Hfl; subst flats; clear Hfl.
+        rewrite (field_ty_dflat opt fl Hdf) in Hx.
+        pose proof Hdf as (_ & _ & _ & Hmono & Hn0 & _ & Hsm & Hfs).
+        destruct (Hflatd (f_ty fl) x Hfs Hmono Hsm Hn0 Hx) as (ps & Hpk & Hdnf & Hmem & Hacc).
+        destruct (IH xs Hdfs Hxs) as (pss & H1 & H2 & H3 & H4).
+        exists (ps :: pss). repeat split.
+        -- constructor; [exact Hdnf | exact H1].
+        -- cbn [map]. f_equal; [exact Hpk | exact H2].
+        -- intros es f Hf Hc Hwf fl0 [<-|Hin] Hdfl Hsk.
+           ++ apply (Hacc es f Hf); [cbn [concat] in Hc; eapply conds_app_l; exact Hc | exact Hwf].
+           ++ eapply H3; [exact Hf | cbn [concat] in Hc; eapply conds_app_r; exact Hc | exact Hwf | exact Hin | exact Hdfl | exact Hsk].
+        -- intros x0 Hx0. inversion Hx0; subst. destruct pss as [|? ?]; [|inversion H1]. exists ps. split; [reflexivity | exact Hmem].
+Qed.
+
+(* a named shape, maybe with a tag property, maybe with flattened structs: a member is an object that carries the tag, and
+   every object that agrees with it on the keys of the shape is read *)
+Lemma named_host ra opt fs tag r j f :
+  Forall (dnfield opt) fs -> (fs <> [] \/ tag <> None) ->
+  shape_gen is_alnum is_numeric R inl flt gargs ra opt tag (SNamed fs) = Ok r ->
+  f <= F -> mem f (ts (fst r)) j = true -> wf_json j = true ->
+  exists es, j = JObj es /\
+    (forall t nm, tag = Some (t, nm) -> assoc t es = Some (JStr nm)) /\
+    (forall es', (forall k, In k (okeys ra fs ++ fkeys fs) -> assoc k es' = assoc k es) ->
+                 (forall k v, assoc k es' = Some v -> wf_json v = true) -> acc (named_de dt sargs ra fs es')) /\
+    exists y, snd r = Some y.
+Proof.
+  intros Hd Hne Hg Hf Hm Hwf. cbn [shape_gen] in Hg.
+  assert (Hg' : bind (omap_list (prop_of is_alnum is_numeric R inl gargs ra opt) (filter (fun fl => negb (is_flat fl)) (live fs))) (fun props =>
+          bind (omap_list (fun fl => flt (field_ty gargs opt fl)) (filter is_flat (live fs))) (fun flats =>
+          let props := match tag with Some (t, n0) => (quoted_head t, TLit n0) :: props | None => props end in
+          let obj := TObj OStruct props in
+          match props, flats with
+          | _, [] => Ok (TMerged obj, Some (TMerged obj))
+          | [], [x] => Ok (TMerged (TUnwrap x), Some (TMerged (TInter flats)))
+          | [], _ => Ok (TMerged (TInter flats), Some (TMerged (TInter flats)))
+          | _, _ => Ok (TMerged (TInter (obj :: flats)), Some (TMerged (TInter (obj :: flats))))
+          end)) = Ok r).
+  { destruct fs as [|f0 fs0]; [|exact Hg]. destruct tag; [exact Hg | destruct Hne as [H|H]; contradiction]. }
+  clear Hg. apply bind_ok in Hg' as (props & Hp & Hg). apply bind_ok in Hg as (flats & Hfl & Hg). cbv zeta in Hg.
+  destruct (flats_info opt fs flats Hd Hfl) as (pss & Hdn & Hpk & Hfacc & Hlone).
+  set (xprops := match tag with Some (t, n0) => [(quoted_head t, TLit n0)] | None => [] end).
+  assert (Hxp : match tag with Some (t, n0) => (quoted_head t, TLit n0) :: props | None => props end = xprops ++ props) by (unfold xprops; destruct tag as [[? ?]|]; reflexivity).
+  rewrite Hxp in Hg.
+  set (tsm := fun ps : list (phead * tsty) => map (fun p => (fst p, ts (snd p))) ps).
+  assert (Hfk : pkeys (concat pss) = fkeys fs).
+  { unfold fkeys. rewrite <- Hpk. clear. induction pss as [|ps pss IH]; cbn [concat map]; [reflexivity|]. rewrite pkeys_app, IH. reflexivity. }
+  assert (Hok : pkeys (tsm props) = okeys ra fs).
+  { unfold tsm, pkeys. rewrite map_map. cbn [fst]. exact (props_keys2 ra opt fs props Hp). }
+  (* from what is known of the entries: the conclusion *)
+  assert (Hfin : forall es f0, f0 <= F -> conds (tsm (xprops ++ props)) es f0 -> conds (concat pss) es f0 ->
+            (forall t nm, tag = Some (t, nm) -> assoc t es = Some (JStr nm)) /\
+            (forall es', (forall k, In k (okeys ra fs ++ fkeys fs) -> assoc k es' = assoc k es) ->
+                         (forall k v, assoc k es' = Some v -> wf_json v = true) -> acc (named_de dt sargs ra fs es'))).
+  { intros es f0 Hf0 Hco Hcf. split.
+    - intros t nm ->. unfold xprops in Hco. specialize (Hco (quoted_head t) (TLit nm) (or_introl eq_refl)). cbn [quoted_head p_key p_optional] in Hco.
+      destruct (assoc t es) as [tv|]; [|discriminate]. apply mem_lit in Hco. subst. reflexivity.
+    - intros es' Hsame Hwf'.
+      eapply (named_acc2 ra opt fs props es' f0 Hd Hp Hf0).
+      + apply (conds_transfer _ es); [unfold tsm in Hco; rewrite map_app in Hco; eapply conds_app_r; exact Hco|].
+        intros k Hk. apply Hsame. apply in_or_app. left. fold (tsm props) in Hk. rewrite Hok in Hk. exact Hk.
+      + apply (Hfacc es' f0 Hf0); [|exact Hwf'].
+        apply (conds_transfer _ es); [exact Hcf|]. intros k Hk. apply Hsame. apply in_or_app. right. rewrite <- Hfk. exact Hk.
+      + exact Hwf'. }
+  destruct flats as [|x flats'].
+  - (* nothing flattened *)
+    inversion Hdn; subst pss.
+    assert (Hr : r = (TMerged (TObj OStruct (xprops ++ props)), Some (TMerged (TObj OStruct (xprops ++ props))))) by (destruct (xprops ++ props); inversion Hg; reflexivity).
+    subst r. cbn [fst snd tsubst] in Hm |- *. apply mem_merged in Hm as (f1 & -> & Hm). apply mem_obj in Hm as (f2 & es & -> & -> & Hm).
+    exists es. split; [reflexivity|]. destruct (Hfin es f2 ltac:(lia) (conds_of_alt _ _ _ Hm) (fun p t0 (H0 : In (p, t0) (concat [])) => match H0 with end)) as [H1 H2].
+    split; [exact H1|]. split; [exact H2 | eauto].
+  - destruct (xprops ++ props) as [|p0 ps0] eqn:Hxpp.
+    + (* only flattened structs *)
+      destruct flats' as [|x2 flats''].
+      * inversion Hg; subst r; clear Hg. cbn [fst snd tsubst] in Hm |- *.
+        destruct (Hlone x eq_refl) as (ps & -> & Hmem1).
+        apply mem_merged in Hm as (f1 & -> & Hm). destruct f1 as [|f2]; [discriminate|]. cbn [memberb] in Hm.
+        destruct (Hmem1 j f2 Hm) as (es & f' & -> & Hlt & Halt).
+        exists es. split; [reflexivity|].
+        destruct (Hfin es f' ltac:(lia) (fun p t0 (H0 : In (p, t0) (tsm [])) => match H0 with end)) as [H1 H2].
+        { cbn [concat]. rewrite app_nil_r. exact (conds_of_alt _ _ _ Halt). }
+        split; [exact H1|]. split; [exact H2 | eauto].
+      * inversion Hg; subst r; clear Hg. cbn [fst snd tsubst] in Hm |- *.
+        apply mem_merged in Hm as (f1 & -> & Hm). destruct f1 as [|f2]; [discriminate|]. cbn [memberb] in Hm.
+        destruct j as [| | | | | |es]; try discriminate.
+        destruct (dnf E f2 (TInter (map ts (x :: x2 :: flats'')))) as [alts|] eqn:Hdd; [|discriminate].
+        destruct f2 as [|f3]; [discriminate|]. rewrite dnf_inter in Hdd.
+        assert (Halts : alts = [(concat pss, [])]).
+        { eapply (inter_fold_singletons f3 (map ts (x :: x2 :: flats'')) pss); [|exact Hdd].
+          clear -Hdn. induction Hdn as [|y ps ys pss' Hy _ IH]; cbn [map]; constructor; [intros a Ha; exact (Hy f3 a Ha) | exact IH]. }
+        subst alts. cbn [existsb] in Hm. rewrite orb_false_r in Hm.
+        exists es. split; [reflexivity|].
+        destruct (Hfin es (S f3) ltac:(lia) (fun p t0 (H0 : In (p, t0) (tsm [])) => match H0 with end) (conds_of_alt _ _ _ Hm)) as [H1 H2].
+        split; [exact H1|]. split; [exact H2 | eauto].
+    + (* own properties (or a tag) and flattened structs *)
+      inversion Hg; subst r; clear Hg. cbn [fst snd tsubst] in Hm |- *.
+      apply mem_merged in Hm as (f1 & -> & Hm). destruct f1 as [|f2]; [discriminate|]. cbn [memberb] in Hm.
+      destruct j as [| | | | | |es]; try discriminate.
+      match type of Hm with match dnf E f2 ?T with _ => _ end = true => destruct (dnf E f2 T) as [alts|] eqn:Hdd; [|discriminate] end.
+      destruct f2 as [|f3]; [discriminate|]. cbn [map] in Hdd. rewrite dnf_inter in Hdd.
+      assert (Halts : alts = [(concat (tsm (p0 :: ps0) :: pss), [])]).
+      { eapply (inter_fold_singletons f3 (TObj OStruct (tsm (p0 :: ps0)) :: map ts (x :: flats')) (tsm (p0 :: ps0) :: pss)); [|exact Hdd].
+        constructor.
+        - intros a Ha. destruct f3 as [|f4]; [discriminate|]. cbn [dnf] in Ha. inversion Ha. reflexivity.
+        - clear -Hdn. induction Hdn as [|y ps ys pss' Hy _ IH]; cbn [map]; constructor; [intros a Ha; exact (Hy f3 a Ha) | exact IH]. }
+      subst alts. cbn [existsb concat] in Hm. rewrite orb_false_r in Hm.
+      exists es. split; [reflexivity|].
+      destruct (Hfin es (S f3) ltac:(lia)) as [H1 H2].
+      { eapply conds_app_l. exact (conds_of_alt _ _ _ Hm). }
+      { eapply conds_app_r. exact (conds_of_alt _ _ _ Hm). }
+      split; [exact H1|]. split; [exact H2 | eauto].
 Qed.
 
 (* the content of a struct / a variant *)
@@ -741,36 +1008,45 @@ Proof.
   - cbn [De_proofs.dshape] in Hd. destruct fs as [|fl fs'].
     + cbn in Hg. inversion Hg; subst. cbn [fst tsubst] in Hm. apply mem_recnever in Hm. subst. cbn. apply acc_ok.
     + assert (Hne : fl :: fs' <> [] \/ @None (str * str) <> None) by (left; discriminate).
-      destruct (named_gen ra opt None (fl :: fs') r Hd Hne Hg) as (props & Hp & Hr & _). rewrite Hr in Hm.
-      cbn [tsubst] in Hm. apply mem_merged in Hm as (f1 & -> & Hm). apply mem_obj in Hm as (f2 & l & -> & -> & Hm). cbn [shape_de].
-      eapply (named_acc ra opt (fl :: fs') props l f2 Hd Hp); [lia | | intros k v Hk; eapply wf_obj_assoc; eassumption].
-      intros p t Hin. apply (alt_member_props _ _ _ _ Hm p (ts t)). apply in_map_iff. exists (p, t). split; [reflexivity | exact Hin].
+      destruct (named_host ra opt (fl :: fs') None r j f Hd Hne Hg Hf Hm Hwf) as (es & -> & _ & Hacc & _). cbn [shape_de].
+      apply Hacc; [intros; reflexivity | intros k v Hk; eapply wf_obj_assoc; eassumption].
 Qed.
 
 (* a named shape carrying a tag property: the tag is there, and the fields are read from the entries — all of them
    (struct-level tag) or those left when the tag is taken out (struct variant of an internally tagged enum) *)
 Lemma tagged_named_acc ra opt fs t nm r j f :
-  Forall (dfield opt) fs -> NoDup (t :: map (Gen.field_key ra) (live fs)) ->
+  Forall (dnfield opt) fs -> ~ In t (all_keys R ra fs) ->
   shape_gen is_alnum is_numeric R inl flt gargs ra opt (Some (t, nm)) (SNamed fs) = Ok r ->
   f <= F -> mem f (ts (fst r)) j = true -> wf_json j = true ->
   exists es, j = JObj es /\ assoc t es = Some (JStr nm) /\
-    acc (named_de dt sargs ra fs es) /\ acc (named_de dt sargs ra fs (remove_key t es)).
+    acc (named_de dt sargs ra fs es) /\ acc (named_de dt sargs ra fs (remove_key t es)) /\ exists y, snd r = Some y.
 Proof.
-  intros Hd Hnd Hg Hf Hm Hwf.
+  intros Hd Hnin Hg Hf Hm Hwf.
   assert (Hne : fs <> [] \/ Some (t, nm) <> None) by (right; discriminate).
-  destruct (named_gen ra opt (Some (t, nm)) fs r Hd Hne Hg) as (props & Hp & Hr & _). rewrite Hr in Hm.
-  cbn [tsubst map fst snd] in Hm. apply mem_merged in Hm as (f1 & -> & Hm). apply mem_obj in Hm as (f2 & l & -> & -> & Hm).
-  exists l. split; [reflexivity|].
-  pose proof (alt_member_props _ _ _ _ Hm (quoted_head t) (TLit nm) (or_introl eq_refl)) as Ht. cbn [quoted_head p_key p_optional] in Ht.
-  destruct (assoc t l) as [tv|] eqn:Hat; [|discriminate]. apply mem_lit in Ht. subst tv. split; [reflexivity|].
-  assert (Hprops : forall p t0, In (p, t0) props -> match assoc (p_key p) l with Some v => mem f2 (ts t0) v = true | None => p_optional p = true end).
-  { intros p t0 Hin. apply (alt_member_props _ _ _ _ Hm p (ts t0)). right. apply in_map_iff. exists (p, t0). split; [reflexivity | exact Hin]. }
-  split.
-  - eapply (named_acc ra opt fs props l f2 Hd Hp); [lia | exact Hprops | intros k v Hk; eapply wf_obj_assoc; eassumption].
-  - eapply (named_acc ra opt fs props (remove_key t l) f2 Hd Hp); [lia | | apply wf_remove_key; exact Hwf].
-    intros p t0 Hin. rewrite assoc_remove_key; [apply Hprops; exact Hin|].
-    intros Heq. inversion Hnd as [|? ? Hnin _]; subst. apply Hnin. rewrite <- (props_keys ra opt fs props Hp).
-    change (p_key p) with ((fun q : phead * tsty => p_key (fst q)) (p, t0)). apply in_map. exact Hin.
+  destruct (named_host ra opt fs (Some (t, nm)) r j f Hd Hne Hg Hf Hm Hwf) as (es & -> & Htag & Hacc & Hy).
+  exists es. split; [reflexivity|]. split; [exact (Htag t nm eq_refl)|]. split; [|split; [|exact Hy]].
+  - apply Hacc; [intros; reflexivity | intros k v Hk; eapply wf_obj_assoc; eassumption].
+  - apply Hacc; [|apply wf_remove_key; exact Hwf].
+    intros k Hk. apply assoc_remove_key. intros ->. apply Hnin. exact Hk.
+Qed.
+
+Lemma tagged_snd ra opt fs t nm r :
+  shape_gen is_alnum is_numeric R inl flt gargs ra opt (Some (t, nm)) (SNamed fs) = Ok r -> exists y, snd r = Some y.
+Proof.
+  intros Hg. cbn [shape_gen] in Hg.
+  assert (Hg' : bind (omap_list (prop_of is_alnum is_numeric R inl gargs ra opt) (filter (fun fl => negb (is_flat fl)) (live fs))) (fun props =>
+          bind (omap_list (fun fl => flt (field_ty gargs opt fl)) (filter is_flat (live fs))) (fun flats =>
+          let props := (quoted_head t, TLit nm) :: props in
+          let obj := TObj OStruct props in
+          match props, flats with
+          | _, [] => Ok (TMerged obj, Some (TMerged obj))
+          | [], [x] => Ok (TMerged (TUnwrap x), Some (TMerged (TInter flats)))
+          | [], _ => Ok (TMerged (TInter flats), Some (TMerged (TInter flats)))
+          | _, _ => Ok (TMerged (TInter (obj :: flats)), Some (TMerged (TInter (obj :: flats))))
+          end)) = Ok r).
+  { destruct fs as [|f0 fs0]; exact Hg. }
+  clear Hg. apply bind_ok in Hg' as (props & _ & Hg). apply bind_ok in Hg as (flats & _ & Hg). cbv zeta in Hg.
+  destruct flats as [|x fl']; inversion Hg; cbn [snd]; eexists; reflexivity.
 Qed.
 
 (* ---- variants ------------------------------------------------------------------------------------ *)
@@ -849,8 +1125,7 @@ Proof.
       destruct Hsh as [Hdf Hsk]. cbn [shape_gen] in Hvt. rewrite Hsk in Hvt. apply bind_ok in Hvt as (a0 & _ & Hvt). inversion Hvt; subst vt.
       cbn [snd fst lone_field] in Hg. rewrite Hsk in Hg. inversion Hg; reflexivity.
     + cbn [is_named andb negb] in Hvt. exists vt. split; [exact Hvt|].
-      assert (Hne : fs <> [] \/ Some (t, name) <> None) by (right; discriminate).
-      destruct (named_gen ra NotOptional (Some (t, name)) fs vt Hsh Hne Hvt) as (props & _ & _ & y & Hy). rewrite Hy in Hg. inversion Hg; reflexivity.
+      destruct (tagged_snd ra NotOptional fs t name vt Hvt) as (y & Hy). rewrite Hy in Hg. inversion Hg; reflexivity.
   - cbn [andb] in Hvt. replace (match is_named (v_shape v) && negb false with true => None | false => None end) with (@None (str * str)) in Hvt by (destruct (is_named (v_shape v)); reflexivity).
     destruct (v_shape v) as [|fs|fs] eqn:Hshape.
     + inversion Hg; reflexivity.
@@ -933,7 +1208,7 @@ Proof.
       rewrite Hsty. exact Hacc.
     + destruct Hx' as (vt & Hvt & ->). cbn [tag_free] in Hkd. cbn [De_proofs.dshape] in Hsh.
       assert (Hf1 : f1 <= F) by lia.
-      destruct (tagged_named_acc (variant_ra raf v) NotOptional fs t (vname a v) vt j f1 Hsh Hkd Hvt Hf1 Hm Hwf) as (es & -> & Hat & _ & Hacc).
+      destruct (tagged_named_acc (variant_ra raf v) NotOptional fs t (vname a v) vt j f1 Hsh Hkd Hvt Hf1 Hm Hwf) as (es & -> & Hat & _ & Hacc & _).
       rewrite Hat, Hfind, Hshape. apply dbind_acc; [|intros; apply acc_ok]. cbn [shape_de]. exact Hacc.
   - (* adjacently tagged *)
     destruct (find_variant_live a vs v 0 Hnames Hin Hsk) as (i' & Hfind).
@@ -959,7 +1234,7 @@ Lemma struct_acc a s r j f :
   c_type a = None -> c_as a = None -> dshape (c_optional_fields a) s ->
   match c_tag a with
   | None => True
-  | Some t => exists fs, s = SNamed fs /\ NoDup (t :: map (Gen.field_key (c_rename_all a)) (live fs))
+  | Some t => exists fs, s = SNamed fs /\ ~ In t (all_keys R (c_rename_all a) fs)
   end ->
   def_body is_upper is_alnum is_numeric R inl flt (DStruct a s) gargs = Ok r ->
   f <= F -> mem f (ts (fst r)) j = true -> wf_json j = true ->
@@ -968,7 +1243,7 @@ Proof.
   intros Hty0 Has Hsh Htag Hg Hf Hm Hwf. unfold def_body in Hg. cbn [attrs_of] in Hg. rewrite Hty0, Has in Hg. cbn [def_de].
   destruct (c_tag a) as [t|].
   - destruct Htag as (fs & -> & Hnd). cbn [De_proofs.dshape] in Hsh.
-    destruct (tagged_named_acc (c_rename_all a) (c_optional_fields a) fs t _ r j f Hsh Hnd Hg Hf Hm Hwf) as (es & -> & _ & Hacc & _).
+    destruct (tagged_named_acc (c_rename_all a) (c_optional_fields a) fs t _ r j f Hsh Hnd Hg Hf Hm Hwf) as (es & -> & _ & Hacc & _ & _).
     cbn [shape_de]. exact Hacc.
   - eapply shape_acc; eassumption.
 Qed.
@@ -1065,6 +1340,74 @@ Qed.
 Lemma de_option_acc' n1 u j : acc (de_ty R (SerdeDe.ddef is_upper R n1) u j) -> acc (de_ty R (SerdeDe.ddef is_upper R n1) (ROption u) j).
 Proof. apply de_option_acc. Qed.
 
+(* ... and of a definition generated at the arguments themselves (inline / flatten) *)
+Lemma hty_B F (HA : PA F) g'' (HBg : PB F g'') d args n1 :
+  length args = nparams d -> forallb mono_ty args = true -> forallb small_arr args = true ->
+  F * S gf + g'' <= n1 ->
+  forall b t0 a0 j0 f0, pmono R (nparams d) t0 = true -> small_arr t0 = true -> (b = true -> nparams d = 0) ->
+    tytext R (lib_inline R (gen g'')) args b t0 = Ok a0 -> f0 <= F ->
+    memberb E f0 (tsubst (fun _ => None) (fun _ => None) a0) j0 = true -> wf_json j0 = true ->
+    acc (de_ty R (SerdeDe.ddef is_upper R n1) (rsubst args t0) j0).
+Proof.
+  intros Hlen Hargs Hsargs Hn1 b t0 a0 j0 f0 Hpm Hsa Hb Ha0 Hf0 Hm0 Hwf0. rewrite tsubst_none in Hm0.
+  assert (Hmono : mono_ty (rsubst args t0) = true).
+  { apply (pmono_subst R (nparams d) args); [apply Forall_forall; rewrite forallb_forall in Hargs; exact Hargs | exact Hlen | exact Hpm]. }
+  assert (Hsmall : small_arr (rsubst args t0) = true) by (apply small_arr_subst; assumption).
+  unfold tytext in Ha0. destruct b.
+  - eapply (HBg n1 _ a0 j0 f0); [exact Hn1 | exact Hf0 | exact Hmono | exact Hsmall | exact Ha0 | exact Hm0 | exact Hwf0].
+  - eapply (HA n1 _ a0 j0 f0); [lia | exact Hf0 | exact Hmono | exact Hsmall | exact Ha0 | exact Hm0 | exact Hwf0].
+Qed.
+
+(* a struct flattened into a definition without parameters: its flattened form is one exact alternative over its keys, and an
+   object whose entries inhabit it is read as the struct *)
+Lemma flat_B F (HA : PA F) g' (HB : forall g0, g0 < g' -> PB F g0) t0 x n1 :
+  flat_struct R t0 -> mono_ty t0 = true -> small_arr t0 = true -> lib_flat R (gen g') t0 = Ok x ->
+  F * S gf + g' <= n1 ->
+  exists ps, pkeys ps = flat_keys R t0 /\
+    (forall k alts, dnf E k x = Some alts -> alts = [(ps, [])]) /\
+    (forall j f, memberb E f x j = true -> exists es f', j = JObj es /\ f' < f /\ alt_member (memberb E f') (ps, []) es = true) /\
+    (forall es f, f <= F ->
+       (forall p t1, In (p, t1) ps -> match assoc (p_key p) es with Some v => memberb E f t1 v = true | None => p_optional p = true end) ->
+       (forall k v, assoc k es = Some v -> wf_json v = true) ->
+       acc (de is_upper R n1 t0 (JObj es))).
+Proof.
+  intros Hct Hm0 Hsm0 Hx Hn2.
+  destruct t0 as [| | | | | | | | |id2 args2| |]; try contradiction.
+  cbn [flat_struct flat_keys] in Hct |- *. unfold Sem_derive_proofs.mono_ty in Hm0. cbn [pmono] in Hm0. cbn [small_arr] in Hsm0. cbn [Gen.lib_flat] in Hx.
+  destruct (lookup R id2) as [d2|] eqn:Hlk2; [|contradiction].
+  destruct d2 as [a2 s2|]; [|contradiction]. destruct s2 as [| |fs2]; try contradiction. destruct fs2 as [|fl0 fs2]; [contradiction|].
+  destruct Hct as (Htag2 & Hnofl2). apply andb_true_iff in Hm0 as [Hlen2 Hargs2]. apply Nat.eqb_eq in Hlen2.
+  set (d2 := DStruct a2 (SNamed (fl0 :: fs2))) in *.
+  apply bind_ok in Hx as (r2 & Hr2 & Hx).
+  apply gen_ok_unfold in Hr2 as (g'' & Hg' & Hr2).
+  destruct n1 as [|n2]; [lia|].
+  destruct (de_env_facts _ _ Hlk2) as (Hpd2 & Hnp2 & _).
+  destruct Hpd2 as (Hdty & Has & _ & Hsh2 & _). cbn [attrs_of d2] in Hdty, Has.
+  unfold def_body in Hr2. cbn [attrs_of d2] in Hr2. rewrite Hdty, Has, Htag2 in Hr2.
+  assert (Hne : fl0 :: fs2 <> [] \/ @None (str * str) <> None) by (left; discriminate).
+  cbn [De_proofs.dshape] in Hsh2.
+  assert (Hsh2' : Forall (dfield R (nparams d2) (c_optional_fields a2)) (fl0 :: fs2)).
+  { rewrite Forall_forall in *. intros x0 Hx0. apply (dnfield_noflat R (nparams d2)); auto. }
+  destruct (named_gen is_alnum is_numeric R (lib_inline R (gen g'')) (lib_flat R (gen g'')) (nparams d2) args2
+              (c_rename_all a2) (c_optional_fields a2) None (fl0 :: fs2) r2 Hsh2' Hne Hr2) as (props2 & Hp2 & Hfr2 & Hsnd2).
+  rewrite Hsnd2 in Hx. inversion Hx; subst x; clear Hx. rewrite Hfr2.
+  exists props2. split.
+  { unfold pkeys. exact (props_keys is_alnum is_numeric R (lib_inline R (gen g'')) args2 (c_rename_all a2) (c_optional_fields a2) (fl0 :: fs2) props2 Hp2). }
+  split.
+  { intros k alts Hk. destruct k as [|k1]; [discriminate|]. cbn [dnf] in Hk. destruct k1 as [|k2]; [discriminate|]. cbn [dnf] in Hk. inversion Hk. reflexivity. }
+  split.
+  { intros j f Hmj. apply mem_merged in Hmj as (f1 & -> & Hmj). apply mem_obj in Hmj as (f2 & es & -> & -> & Hmj). exists es, f2. repeat split; [lia | exact Hmj]. }
+  intros es f Hf Hco Hwf.
+  unfold de. cbn [de_ty]. rewrite Hlk2. change (SerdeDe.ddef is_upper R (S n2)) with (def_de is_upper (de_ty R (SerdeDe.ddef is_upper R n2))).
+  cbn [def_de d2 shape_de].
+  assert (Hsmall2 : forallb small_arr args2 = true) by exact Hsm0.
+  eapply (named_acc is_alnum is_numeric R E (lib_inline R (gen g'')) (nparams d2) args2 args2 (fun _ => None) (fun _ => None)
+            (de_ty R (SerdeDe.ddef is_upper R n2)) F
+            (hty_B F HA g'' (HB g'' ltac:(lia)) d2 args2 n2 Hlen2 Hargs2 Hsmall2 ltac:(lia))
+            (de_option_acc' n2) (c_rename_all a2) (c_optional_fields a2) (fl0 :: fs2) props2 es f Hsh2' Hp2 Hf); [|exact Hwf].
+  intros p t1 Hin. rewrite tsubst_none. apply Hco. exact Hin.
+Qed.
+
 (* the content of a newtype variant of an internally tagged enum: a member of `{ tag } & Struct` carries the tag, and what is
    left when the tag is taken out is read as the struct *)
 Lemma content_A F1 (HA : PA F1) (HB : forall g, PB F1 g) tg nm t0 a0 j f n2 :
@@ -1078,7 +1421,7 @@ Proof.
   cbn [struct_content] in Hct. unfold Sem_derive_proofs.mono_ty in Hm0. cbn [pmono] in Hm0. cbn [small_arr] in Hsm0. cbn [Gen.name_of] in Ha0.
   destruct (lookup R id2) as [d2|] eqn:Hlk2; [|contradiction].
   destruct d2 as [a2 s2|]; [|contradiction]. destruct s2 as [| |fs2]; try contradiction. destruct fs2 as [|fl0 fs2]; [contradiction|].
-  destruct Hct as (Htag2 & Hnin & _). apply andb_true_iff in Hm0 as [Hlen2 Hargs2]. apply Nat.eqb_eq in Hlen2.
+  destruct Hct as (Htag2 & Hnin & Hnofl2). apply andb_true_iff in Hm0 as [Hlen2 Hargs2]. apply Nat.eqb_eq in Hlen2.
   apply bind_ok in Ha0 as (l2 & Hl2 & Ha0). inversion Ha0; subst a0; clear Ha0.
   set (d2 := DStruct a2 (SNamed (fl0 :: fs2))) in *.
   destruct (de_env_facts _ _ Hlk2) as (Hpd2 & Hnp2 & dc2 & Hdl2 & Hdc2).
@@ -1088,6 +1431,9 @@ Proof.
   unfold def_body in Hr2. cbn [attrs_of d2] in Hr2. rewrite Hdty, Has, Htag2 in Hr2.
   assert (Hne : fl0 :: fs2 <> [] \/ @None (str * str) <> None) by (left; discriminate).
   cbn [De_proofs.dshape] in Hsh2.
+  assert (Hsh2' : Forall (dfield R (nparams d2) (c_optional_fields a2)) (fl0 :: fs2)).
+  { rewrite Forall_forall in *. intros x0 Hx0. apply (dnfield_noflat R (nparams d2)); auto. }
+  clear Hsh2. rename Hsh2' into Hsh2.
   destruct (named_gen is_alnum is_numeric R (lib_inline R (gen g')) (lib_flat R (gen g')) (nparams d2) (dummies (attrs_of d2))
               (c_rename_all a2) (c_optional_fields a2) None (fl0 :: fs2) r2 Hsh2 Hne Hr2) as (props2 & Hp2 & Hfr2 & _).
   set (s2 := bind_params (d_params dc2) l2) in *.
@@ -1120,6 +1466,9 @@ Proof.
     rewrite <- Heq. change (p_key p) with ((fun q : phead * tsty => p_key (fst q)) (p, t0)). apply in_map. exact Hin.
 Qed.
 
+Lemma rsubst_nil0 t0 : pmono R 0 t0 = true -> rsubst [] t0 = t0.
+Proof. intros H. apply rsubst_nil. apply (pmono_src R 0). exact H. Qed.
+
 Lemma P_all : forall F, PA F /\ (forall g, PB F g).
 Proof.
   induction F as [|F1 [IHA IHB]].
@@ -1141,19 +1490,28 @@ Proof.
       eapply (def_acc is_upper is_alnum is_numeric R E (lib_inline R (gen g')) (lib_flat R (gen g')) (nparams d) args (dummies (attrs_of d))
                 (bind_params (d_params dc) l) (bind_params (d_params dc) l) (de_ty R (SerdeDe.ddef is_upper R n1)) F1
                 (hty_A F1 IHA IHB d args l (d_params dc) g' n1 Hlen Hargs Hsargs Hl Hnp Hps Hn1) (de_option_acc' n1));
-        [| exact Hpd | exact Hr | | exact Hmem | exact Hwf]; [|lia].
-      (* the content of internally tagged newtype variants *)
-      intros tg nm t0 a0 j0 f0 Hct Hpm Hsa Ha0 Hf0 Hm0 Hwf0.
-      assert (Hmono : mono_ty (rsubst args t0) = true).
-      { apply (pmono_subst R (nparams d) args); [apply Forall_forall; rewrite forallb_forall in Hargs; exact Hargs | exact Hlen | exact Hpm]. }
-      assert (Hsmall : small_arr (rsubst args t0) = true) by (apply small_arr_subst; assumption).
-      rewrite dummies_eq in Ha0.
-      pose proof (name_of_tsubst R (nparams d) (map fst (c_params (attrs_of d))) args l (d_params dc) Hnp Hps (map_length _ _) Hl Hlen t0 a0 Hpm Ha0) as Hname.
-      destruct n1 as [|n2]; [cbn in Hn; lia|].
-      assert (Hct' : struct_content R tg (rsubst args t0)) by (destruct t0; try contradiction; exact Hct).
-      apply (content_A F1 IHA IHB tg nm (rsubst args t0) _ j0 f0 n2 Hct' Hmono Hsmall Hname ltac:(lia) Hm0 Hwf0). cbn in Hn. lia. }
+        [| | exact Hpd | exact Hr | | exact Hmem | exact Hwf]; [| |lia].
+      - (* the content of internally tagged newtype variants *)
+        intros tg nm t0 a0 j0 f0 Hct Hpm Hsa Ha0 Hf0 Hm0 Hwf0.
+        assert (Hmono : mono_ty (rsubst args t0) = true).
+        { apply (pmono_subst R (nparams d) args); [apply Forall_forall; rewrite forallb_forall in Hargs; exact Hargs | exact Hlen | exact Hpm]. }
+        assert (Hsmall : small_arr (rsubst args t0) = true) by (apply small_arr_subst; assumption).
+        rewrite dummies_eq in Ha0.
+        pose proof (name_of_tsubst R (nparams d) (map fst (c_params (attrs_of d))) args l (d_params dc) Hnp Hps (map_length _ _) Hl Hlen t0 a0 Hpm Ha0) as Hname.
+        destruct n1 as [|n2]; [cbn in Hn; lia|].
+        assert (Hct' : struct_content R tg (rsubst args t0)) by (destruct t0; try contradiction; exact Hct).
+        apply (content_A F1 IHA IHB tg nm (rsubst args t0) _ j0 f0 n2 Hct' Hmono Hsmall Hname ltac:(lia) Hm0 Hwf0). cbn in Hn. lia.
+      - (* flattened structs: the definition has no parameters *)
+        intros t0 x Hfs Hpm Hsa Hn0 Hx. unfold nparams in Hn0, Hlen, Hpm. rewrite Hn0 in Hlen, Hpm.
+        destruct args; [|discriminate]. assert (Hc : c_params (attrs_of d) = []) by (destruct (c_params (attrs_of d)); [reflexivity | discriminate]).
+        unfold dummies in Hx. rewrite Hc in Hx, Hps. cbn [map] in Hx, Hps. destruct (d_params dc); [|discriminate]. cbn in Hl. inversion Hl; subst l.
+        cbn [bind_params]. rewrite (rsubst_nil0 _ Hpm) in Hx |- *.
+        destruct (flat_B F1 IHA g' (fun g0 _ => IHB g0) t0 x n1 Hfs Hpm Hsa Hx Hn1) as (ps & Hpk & Hdn & Hme & Hacc).
+        exists ps. split; [exact Hpk|]. split; [intros k alts; rewrite tsubst_none; apply Hdn|]. split; [intros j0 f0; rewrite tsubst_none; apply Hme|].
+        intros es f0 Hf0 Hco Hwf0. apply (Hacc es f0 Hf0); [exact Hco | exact Hwf0]. }
     split; [exact HA|].
-    induction g as [|g' IHg]; intros n t a j f Hn Hf Hm Hsm Ha Hmem Hwf; unfold de.
+    induction g as [g IHg] using lt_wf_ind. intros n t a j f Hn Hf Hm Hsm Ha Hmem Hwf; unfold de.
+    destruct g as [|g'].
     + eapply (lib_inline_de R E (SerdeDe.ddef is_upper R n) (S F1) (gen 0)); [|exact Hm | exact Hsm | exact Ha | exact Hf | exact Hmem | exact Hwf].
       intros id d args r j0 f0 _ _ _ _ Hr. cbn in Hr. discriminate.
     + eapply (lib_inline_de R E (SerdeDe.ddef is_upper R n) (S F1) (gen (S g'))); [|exact Hm | exact Hsm | exact Ha | exact Hf | exact Hmem | exact Hwf].
@@ -1163,16 +1521,11 @@ Proof.
       destruct (plain_decl is_upper is_alnum is_numeric R gf d dc Hdc) as (r0 & Hr0 & _). apply gen_ok_unfold in Hr0 as (g0 & Hgf & _).
       destruct n as [|n1]; [cbn in Hn; lia|]. change (SerdeDe.ddef is_upper R (S n1)) with (def_de is_upper (de_ty R (SerdeDe.ddef is_upper R n1))).
       rewrite <- (tsubst_none (fst r)) in Hmem.
+      assert (Hn1 : S F1 * S gf + g' <= n1) by (cbn in Hn |- *; lia).
       eapply (def_acc is_upper is_alnum is_numeric R E (lib_inline R (gen g')) (lib_flat R (gen g')) (nparams d) args args
-                (fun _ => None) (fun _ => None) (de_ty R (SerdeDe.ddef is_upper R n1)) (S F1));
-        [| apply de_option_acc | | exact Hpd | exact Hr | exact Hf | exact Hmem | exact Hwf].
-      * intros b t0 a0 j0 f0 Hpm Hsa Hb Ha0 Hf0 Hm0 Hwf0. rewrite tsubst_none in Hm0.
-        assert (Hmono : mono_ty (rsubst args t0) = true).
-        { apply (pmono_subst R (nparams d) args); [apply Forall_forall; rewrite forallb_forall in Hargs; exact Hargs | exact Hlen | exact Hpm]. }
-        assert (Hsmall : small_arr (rsubst args t0) = true) by (apply small_arr_subst; assumption).
-        unfold tytext in Ha0. destruct b.
-        -- eapply (IHg n1 _ a0 j0 f0); [cbn in Hn |- *; lia | exact Hf0 | exact Hmono | exact Hsmall | exact Ha0 | exact Hm0 | exact Hwf0].
-        -- eapply (HA n1 _ a0 j0 f0); [cbn in Hn |- *; lia | exact Hf0 | exact Hmono | exact Hsmall | exact Ha0 | exact Hm0 | exact Hwf0].
+                (fun _ => None) (fun _ => None) (de_ty R (SerdeDe.ddef is_upper R n1)) (S F1)
+                (hty_B (S F1) HA g' (IHg g' (Nat.lt_succ_diag_r g')) d args n1 Hlen Hargs Hsargs Hn1) (de_option_acc' n1));
+        [| | exact Hpd | exact Hr | exact Hf | exact Hmem | exact Hwf].
       * intros tg nm t0 a0 j0 f0 Hct Hpm Hsa Ha0 Hf0 Hm0 Hwf0. rewrite tsubst_none in Hm0.
         assert (Hmono : mono_ty (rsubst args t0) = true).
         { apply (pmono_subst R (nparams d) args); [apply Forall_forall; rewrite forallb_forall in Hargs; exact Hargs | exact Hlen | exact Hpm]. }
@@ -1180,6 +1533,11 @@ Proof.
         destruct n1 as [|n2]; [cbn in Hn; lia|].
         assert (Hct' : struct_content R tg (rsubst args t0)) by (destruct t0; try contradiction; exact Hct).
         apply (content_A F1 IHA IHB tg nm (rsubst args t0) a0 j0 f0 n2 Hct' Hmono Hsmall Ha0 Hf0 Hm0 Hwf0). cbn in Hn. lia.
+      * intros t0 x Hfs Hpm Hsa Hn0 Hx. unfold nparams in Hn0, Hlen, Hpm. rewrite Hn0 in Hlen, Hpm.
+        destruct args; [|discriminate]. rewrite (rsubst_nil0 _ Hpm) in Hx |- *.
+        destruct (flat_B (S F1) HA g' (fun g0 Hlt => IHg g0 (Nat.lt_lt_succ_r _ _ Hlt)) t0 x n1 Hfs Hpm Hsa Hx Hn1) as (ps & Hpk & Hdn & Hme & Hacc).
+        exists ps. split; [exact Hpk|]. split; [intros k alts; rewrite tsubst_none; apply Hdn|]. split; [intros j0 f0; rewrite tsubst_none; apply Hme|].
+        intros es f0 Hf0 Hco Hwf0. apply (Hacc es f0 Hf0); [exact Hco | exact Hwf0].
 Qed.
 
 Theorem member_accepted : forall F n t a j f,
